@@ -39,3 +39,10 @@ Proof. exact run_idents. Qed.
 (** finding F11 (known): at the wrap boundary N - counter turns positive and the limit is lost *)
 Theorem C11_wrap_refuted_pinned : limit_remaining min64 5 = max64 - 4.
 Proof. exact limit_wrap_witness. Qed.
+
+(** regenerated from link.go on every run: NewState() is reached only for stubs that are new (all of
+    them in Start, the appended one in AddToxic); the restarts of existing stubs in AddToxic,
+    UpdateToxic and RemoveToxic keep the stub's state object - which is what [CRestart] of
+    Model/Reconf.v does with [s_ps] - so the bytes already counted survive every reconfiguration *)
+Theorem C11_state_survives_restarts : state_created_only_for_new_stubs = true.
+Proof. reflexivity. Qed.
